@@ -40,4 +40,69 @@ PROPS = {
         'level_note': 'Trusts mon_iter.rs; node identity is by address (self-tested at start-up); the Debug witness covers struct-kind nodes and leaves (generic wrappers are transparent in both views).',
         'design_ref': '5 / C16',
     },
+    'C07': {
+        'title': 'history independence',
+        'rule': 'one case = a history of 1-8 (thorough 1-12) calls on one thread through 11 entry points (accepted, rejected, state-polluting '
+                'inputs; raw-parser calls refill one buffer so texts share their address) followed by a probe that is re-run alone on a fresh OS thread; '
+                'non-trivial = every case (the probe always runs on a thread with residue); distinct by hash of (history texts, probe, entry)',
+        'evaluations_key': 'histories',
+        'floors': {'quick': {'histories': 3000, 'probes_on_dirty_state': 2500, 'probes_with_version_residue': 200, 'probes_at_reused_address': 400},
+                   'thorough': {'histories': 90000, 'probes_with_version_residue': 5000}},
+        'technique': 'runtime monitor: differential re-execution of the probe call on a fresh thread (fresh thread-locals) against the call made after a recorded history; hook snapshot records the residue state the probe ran under',
+        'level_text': 'Thousands of random call histories that leave real residue in the thread-local parser state (observed through the snapshot hook and listed in the evidence) are followed by a probe whose canonical result is compared with the same call on a fresh thread.',
+        'level_note': 'Only residue that the sampled histories produce is exercised; equality is on canonical results (text, defines, origins / exact tree skeleton / error Debug).',
+        'design_ref': '5 / C07',
+    },
+    'C08': {
+        'title': 'totality',
+        'rule': 'one case = a batch of 12 hostile inputs (token soups, byte soups, byte/token-mutated corpus and G-SV programs, prefixes, deep nesting, library soups) '
+                'with random defines / include paths / flags through preprocess_str, parse_sv_str, parse_lib_str, then on Ok: iteration, events, Display, Debug, '
+                'get_str, get_str_trim, Locate::try_from, origin(); 1 case in 16 is a file-fault case (non-UTF-8 file, directory, missing file reached directly or through 1-2 include levels); '
+                'distinct by hash of input text',
+        'evaluations_key': 'calls',
+        'dead_worker_is_violation': True,
+        'floors': {'quick': {'calls': 150000, 'trees': 20000, 'file_fault_errors_checked': 400, 'nodes_get_str_try_from': 2000000},
+                   'thorough': {'calls': 9000000, 'trees': 1000000, 'file_fault_errors_checked': 20000}},
+        'technique': 'runtime monitor: catch_unwind + process supervision around every public entry point under fuzzed inputs in a debug-assertions+overflow-checks build; valgrind/Miri legs in thorough',
+        'level_text': 'Hostile inputs are driven through every public entry point in the strictest build profile; a caught panic, a dead worker or a mis-shaped file-fault error is a violation with the input as witness.',
+        'level_note': 'Stack exhaustion by nesting is outside the claim (cases run on 1 GiB stacks, nesting <= 60).',
+        'design_ref': '5 / C08',
+    },
+    'C15': {
+        'title': 'incomplete mode',
+        'rule': 'one case = one source (shared tree workload plus token/byte-mutated and valid+broken concatenations); incomplete mode must not return Error::Parse, '
+                'must tile a prefix that strict parsing accepts as the same tree, must equal strict mode where strict accepts, and must ignore a junk suffix; distinct by hash of (text, grammar)',
+        'evaluations_key': 'inputs',
+        'floors': {'quick': {'incomplete_trees': 3000, 'proper_prefix_trees': 1000, 'strict_accepted': 1200, 'junk_suffix_checked': 1200, 'prefix_reparsed': 3000},
+                   'thorough': {'incomplete_trees': 80000, 'proper_prefix_trees': 25000}},
+        'technique': 'runtime monitor: metamorphic/differential comparison of incomplete-mode and strict-mode executions (exact and layout-free tree skeletons) plus the tiling monitor in prefix mode',
+        'level_text': 'For every generated or mutated input both modes of the real parser are run and compared; the covered prefix is re-parsed strictly to show it consists of complete descriptions.',
+        'level_note': 'Differences that vanish with an unbounded memo are attributed to finding K3 (listed under C15 as well).',
+        'design_ref': '5 / C15',
+    },
+    'C17': {
+        'title': 'memo transparency',
+        'rule': 'one case = one preprocessed text parsed by the raw parser at capacities unbounded, default, 4096, 256, 128 and (size permitting) 64..1; '
+                'non-trivial = at least one run evicted entries; distinct by hash of (text, mode)',
+        'evaluations_key': 'runs',
+        'floors': {'quick': {'runs': 9000, 'runs_with_evictions': 5000, 'runs_at_default': 1500, 'runs_at_16': 600, 'runs_at_1': 50},
+                   'thorough': {'runs': 200000, 'runs_with_evictions': 100000}},
+        'technique': 'runtime monitor: differential execution of the real parser under memo capacities set through the storage hook; hook counters (evictions, guard-mismatched hits, version-stack events) classify a mismatch against the known causes',
+        'level_text': 'The same text is parsed at up to twelve memo capacities through the hook-configurable table and every result is compared with the unbounded one; eviction counts in the evidence show the sweep really evicted.',
+        'level_note': 'With hooks on the table is created by the hook module (default 1024), so an edit of the literal in storage!() is not seen (default_capacity_source: hook). K3/K4 are attributed by cause (see known_findings.json), anything else is a violation.',
+        'design_ref': '5 / C17',
+        'coverage_extra': {'default_capacity_source': 'hook'},
+    },
+    'C19': {
+        'title': 'thread isolation',
+        'rule': 'one case = one concurrent round: 2/4/16/64 threads released on a barrier, each making 3-12 calls (state-sensitive inputs, the same input on several threads, polluting inputs, corpus programs) '
+                'with injected yields at every mutation of thread-local parser state; every result is compared with the same call run alone; distinct = distinct observed interleaving (hash of the merged hook-event order)',
+        'evaluations_key': 'concurrent_calls',
+        'floors': {'quick': {'rounds': 90, 'concurrent_calls': 5000, 'overlapping_call_pairs': 20000, 'context_switches_between_hook_events': 20000, 'injected_yields': 10000},
+                   'thorough': {'rounds': 2000, 'concurrent_calls': 100000}},
+        'technique': 'runtime monitor: concurrent stress with yields injected through the state hooks, results checked against sequential fresh-thread references; observed interleavings measured from globally sequenced hook events; TSan/Miri legs in thorough',
+        'level_text': 'Real threads run the real library concurrently under injected scheduling noise; every result is compared with its sequential reference and the evidence reports how much true overlap and how many context switches between state mutations were observed.',
+        'level_note': 'Schedules are sampled, not enumerated; a shared cache that does not collide on the sampled inputs would pass.',
+        'design_ref': '5 / C19',
+    },
 }
